@@ -7,5 +7,9 @@ CONSTANTS
   FullAlphabet = FALSE
   Walk = FALSE
   MaxSteps = 2
+  Tight = FALSE
+  Warm = FALSE
+  Per = 8
+  Rebuild = "limit-burst"
 INVARIANTS ImplMatchesChoose
 CHECK_DEADLOCK FALSE
